@@ -176,7 +176,7 @@ def robinson(eqs, th=None, mism=None):
             continue
         hs, ht = s[0], t[0]
         if erase(hs) != erase(ht):
-            a, b = sorted((erase(hs), erase(ht)))
+            a, b = sorted((coarse(hs), coarse(ht)))
             return None, None, f"clash:{a}~{b}"
         if len(s) != len(t):
             return None, None, f"arity:{erase(hs)}"
@@ -259,10 +259,24 @@ def match(p, t, d):
     return all(match(a, b, d) for a, b in zip(p[1:], t[1:]))
 
 
+def coarse(h):
+    """Coarse constructor class used in violation keys (keeps the number of keys small)."""
+    h = erase(h)
+    if h[0] == "?":
+        return "cvar" if h in CONST_VARS else "var"
+    if h in ("1", "2", "#c0"):
+        return "const"
+    if h in ("int", "bool", "none", "qubit", "#0", "#1"):
+        return "atom"
+    return h
+
+
 def shape(t):
-    if is_var(t):
-        return "cvar" if t[0] in CONST_VARS else "var"
-    return erase(t[0])
+    return coarse(t[0])
+
+
+def pair_shape(s, t):
+    return "~".join(sorted((shape(s), shape(t))))
 
 
 # --------------------------------------------------------------------------------------
@@ -364,6 +378,10 @@ def grids(tier):
                    + mk(A("?a", "?c"), (), ["fn1"]))
         out.append(("G2:small depth<=1 pairs x 2 bindings (range small depth<=1)",
                     q1, p_ac, [s for s in sigmas(s2, s_ac, 2) if len(s) == 2]))
+        z_at = A("int", "?a", "?b")
+        z1 = dedup(z_at + mk(z_at, (), ["tuple1", "tuple2"]))
+        z2 = dedup(z1 + mk(z_at, (), ["tuple1", "tuple2"], inner=z1))
+        out.append(("G3:depth<=2 tuple-only pairs x {}", z2, [], [()]))
     else:
         out.append(("G0:depth<=1 pairs x {}", u1, full_c, [()]))
         # depth 2 over reduced atoms/constructors, empty and 1-binding partial solutions
@@ -538,7 +556,7 @@ def evaluate(s, t, sig, pre=None):
     gsub = {g["ev"][v]: build(u) for v, u in sig}
     findings = []
     info = {}
-    sh = f"{shape(s)}~{shape(t)}"
+    sh = pair_shape(s, t)
 
     # ---- implementation
     try:
@@ -589,11 +607,16 @@ def evaluate(s, t, sig, pre=None):
             findings.append(("result-kind-mismatch", f"{name} := {show(tv)}"))
             return findings, info
         r[name] = tv
-    info["result"] = sorted((k, show(v)) for k, v in r.items())
+    info["result"] = show_sigma(sorted(r.items()))
 
     cyc = find_cycle(r)
     if cyc:
-        cls = "const-var-chain" if all(v in CONST_VARS for v in cyc) else "var-chain-occurs"
+        if len(cyc) == 1:
+            cls = "direct-occurs"            # v bound to a term that contains v itself
+        elif all(v in CONST_VARS for v in cyc):
+            cls = "const-var-chain"
+        else:
+            cls = "var-chain-occurs"         # cycle closed through other bindings
         findings.append((f"cyclic-substitution:{cls}",
                          f"returned {show_sigma(sorted(r.items()))} which is cyclic through "
                          f"{' -> '.join(cyc + cyc[:1])}; oracle says "
@@ -611,11 +634,11 @@ def evaluate(s, t, sig, pre=None):
     modulo = exp == "either"
     same = (erase_flags(s1) == erase_flags(t1)) if modulo else (s1 == t1)
     if not same:
-        findings.append((f"result-not-unifier:{sh}",
+        findings.append(("result-not-unifier",
                          f"closure gives {show(s1)} vs {show(t1)} under {show_sigma(sorted(r.items()))}"))
     for v, u in sig:
         if app(rs, (v,)) != app(rs, u):
-            findings.append((f"result-drops-partial-solution:{sh}",
+            findings.append(("result-drops-partial-solution",
                              f"binding {v}: {show(u)} not satisfied by {show_sigma(sorted(r.items()))}"))
             break
     if not findings:
@@ -626,7 +649,7 @@ def evaluate(s, t, sig, pre=None):
         names = sorted(names)
         d = {}
         if not all(match(app(rs, (v,)), app(th, (v,)), d) for v in names):
-            findings.append((f"result-not-most-general:{sh}",
+            findings.append(("result-not-most-general",
                              f"returned {show_sigma(sorted(r.items()))}; oracle mgu "
                              f"{show_sigma(sorted(th.items()))} is not an instance of it"))
 
@@ -638,14 +661,14 @@ def evaluate(s, t, sig, pre=None):
             break
         cs, ct = ns, nt
     else:
-        findings.append((f"substituter-no-fixpoint:{sh}", "no fixpoint after len(subst)+2 rounds"))
+        findings.append(("substituter-no-fixpoint", "no fixpoint after len(subst)+2 rounds"))
         return findings, info
     if read(cs) != s1 or read(ct) != t1:
-        findings.append((f"substituter-mismatch:{sh}",
+        findings.append(("substituter-mismatch",
                          f"Substituter fixpoint {show(read(cs))} / {show(read(ct))}, "
                          f"independent closure {show(s1)} / {show(t1)}"))
     elif (cs == ct) != (s1 == t1):
-        findings.append((f"type-equality-mismatch:{sh}",
+        findings.append(("type-equality-mismatch",
                          f"guppylang == says {cs == ct} for {show(s1)} vs {show(t1)}"))
     return findings, info
 
@@ -665,7 +688,8 @@ def _work(item):
         raise AssertionError(f"inconsistent partial solution enumerated: {sig}")
     dom = {v for v, _ in sig}
     cnt = dict(n=0, nontrivial=0, ok=0, none=0, exp_ok=0, exp_fail=0, exp_either=0,
-               either_accepted=0, either_rejected=0, cyclic=0)
+               either_accepted=0, either_rejected=0, cyclic=0, cyclic_empty_sigma=0)
+    cyc_ex = [None]
     viol = {}
     samples = []
 
@@ -686,6 +710,11 @@ def _work(item):
                 cnt["either_accepted" if info["impl"] == "subst" else "either_rejected"] += 1
         if info.get("cyclic"):
             cnt["cyclic"] += 1
+            if not sig:
+                cnt["cyclic_empty_sigma"] += 1
+                ex = f"unify({show(s)}, {show(t)}, {{}}) -> {info['result']}"
+                if cyc_ex[0] is None or (len(ex), ex) < (len(cyc_ex[0]), cyc_ex[0]):
+                    cyc_ex[0] = ex
         for key, detail in f:
             sz = size(s) + size(t) + sum(1 + size(u) for _, u in sig)
             what = f"unify({show(s)}, {show(t)}, {show_sigma(sig)}): {detail}"
@@ -708,7 +737,7 @@ def _work(item):
         for s in uc:
             for t in uc:
                 one(s, t)
-    return cnt, viol, samples
+    return cnt, viol, samples, cyc_ex[0]
 
 
 def _self_test(all_terms):
@@ -757,7 +786,10 @@ def run(ctx):
     tot = {}
     samples = []
     merged = {}
-    for cnt, viol, smp in results:
+    cyc_example = None
+    for cnt, viol, smp, cex in results:
+        if cex and (cyc_example is None or (len(cex), cex) < (len(cyc_example), cyc_example)):
+            cyc_example = cex
         for k, v in cnt.items():
             tot[k] = tot.get(k, 0) + v
         if len(samples) < 8:
@@ -794,6 +826,8 @@ def run(ctx):
         "flag_boundary_accepted_by_impl": tot["either_accepted"],
         "flag_boundary_rejected_by_impl": tot["either_rejected"],
         "cyclic_results": tot["cyclic"],
+        "cyclic_results_with_empty_partial_solution": tot["cyclic_empty_sigma"],
+        "cyclic_example_with_empty_partial_solution": cyc_example,
         "violation_classes": len(merged),
         "exhaustive": True,
     }
